@@ -64,6 +64,8 @@ BASE = {
         {"mem": 1, "offset": [["global.get", 1]], "bytes": [3]},
         {"mem": 2, "offset": [["global.get", 2]], "bytes": [4, 5]},
     ],
+    # custom sections at three positions (C28): before the first section, before and after the name section
+    "customs": {"early": [["cs_early", [1, 2, 3]]], "mid": [["cs_mid", []], ["producers", [0]]], "late": [["cs_late", [9, 9]], ["cs_mid", [7]]]},
     # a complete name section (C29): functions, globals, locals
     "names": {
         "funcs": [[0, "nm_ifx"], [1, "nm_if0"], [2, "nm_f2"], [3, "nm_f3"], [4, "nm_f4"], [5, "nm_f5"]],
@@ -87,6 +89,7 @@ class Linked:
         self.tables = []                           # {"init": tokens|None}
         self.imports = []                          # (kind, name)
         self.names = {"F": {}, "G": {}, "L": {}}   # key -> name ; (function key, local index) -> name
+        self.customs = []                          # [name, bytes] in order (name section excluded)
 
 
 def link_decoded(d):
@@ -121,6 +124,7 @@ def link_decoded(d):
         L.elems.append({"offset": e.get("offset"), "items": items})
     for t in d["tables"]:
         L.tables.append({"init": t["init"]})
+    L.customs = [[c[0], list(c[1])] for c in d.get("customs", [])]
     nm = d.get("names") or {}
     for i, n in nm.get("funcs", []): L.names["F"][i] = n
     for i, n in nm.get("globals", []): L.names["G"][i] = n
@@ -172,6 +176,8 @@ class RefModel:
             L.elems.append({"offset": self.base_toks(e["offset"]), "items": [self.base_toks(i) for i in items]})
         for t in base["tables"]:
             L.tables.append({"init": self.base_toks(t["init"]) if t["init"] else None})
+        cs = base.get("customs") or {}
+        L.customs = [[c[0], list(c[1])] for part in ("early", "mid", "late") for c in cs.get(part, [])]
         nm = base.get("names") or {}
         for i, n in nm.get("funcs", []): L.names["F"][self.base_key["F"][i]] = n
         for i, n in nm.get("globals", []): L.names["G"][self.base_key["G"][i]] = n
@@ -226,6 +232,15 @@ class RefModel:
                 self.delete("F", self.ref(s["id"], "F"))
             elif op == "set_fn_name":
                 L.names["F"][self.ref(s["id"], "F")] = s["name"]
+            elif op == "custom_add":
+                L.customs.append([s["name"], list(s["bytes"])])
+            elif op == "custom_delete":
+                # (get_id: the FIRST section with that name)
+                i = [c[0] for c in L.customs].index(s["name"])
+                del L.customs[i]
+            elif op == "custom_modify":
+                i = [c[0] for c in L.customs].index(s["name"])
+                L.customs[i][1] = list(s["bytes"])
             elif op == "replace_import":
                 # the function bound to this import entry becomes a local function; its ID keeps designating it
                 imp = self.base_imports[s["import_id"]]
@@ -418,6 +433,7 @@ class Sem:
             for (fk, li), n in L.names["L"].items():
                 V["name-local:" + n] = self.fval(fk)
         S["count.globals"] = len(L.G); S["count.funcs"] = len(L.F); S["count.memories"] = len(L.M)
+        S["custom-sections"] = tuple((c[0], tuple(c[1])) for c in L.customs)
         S["imports"] = tuple(sorted(L.imports))
         S["exports"] = tuple(sorted((e["name"], e["kind"]) for e in L.exports))
         for e in L.exports:
@@ -542,6 +558,7 @@ def menu(kind):
         creator("add_import_func", lambda k, c: {"op": "add_import_func", "name": "nif%d" % k}, "F")
         creator("add_local_func(call base local, named)", lambda k, c: {"op": "add_local_func", "name": "built_%d" % k, "locals": ["i64"], "body": [["call", B(2)], ["global.get", B(3)], ["i32.add"]]}, "F")
         creator("add_local_func(call earlier)", lambda k, c: {"op": "add_local_func", "body": [["call", R(c["F0"][-1])], ["i32.const", 950 + k], ["i32.add"]]} if c["F0"] else None, "F")
+        creator("add_local_func(new signature)", lambda k, c: {"op": "add_local_func", "params": ["i64"], "body": [["i32.const", 970 + k]]}, "F")
         creator("add_import_memory", lambda k, c: {"op": "add_import_memory", "name": "nim%d" % k, "min": 10 + k}, "M")
         creator("add_local_memory", lambda k, c: {"op": "add_local_memory", "min": 20 + k}, "M")
         creator("add_data(base local memory, offset global.get base import)", lambda k, c: {"op": "add_data", "mem": B(2), "offset": [G(B(1))], "bytes": [7, k]}, None)
@@ -553,6 +570,17 @@ def menu(kind):
         creator("delete_global(unreferenced base import)", lambda k, c: {"op": "delete_global", "id": B(0)}, None)
         creator("delete_func(unreferenced base import)", lambda k, c: {"op": "delete_func", "id": B(0)}, None)
         creator("delete_memory(unreferenced base import)", lambda k, c: {"op": "delete_memory", "id": B(0)}, None)
+    if kind in ("CS",):
+        creator("custom_add", lambda k, c: {"op": "custom_add", "name": "cs_new%d" % k, "bytes": [5, k]}, None)
+        creator("custom_add(duplicate name)", lambda k, c: {"op": "custom_add", "name": "cs_mid", "bytes": [6, k]}, None)
+        creator("custom_delete(first)", lambda k, c: {"op": "custom_delete", "name": "cs_early"} if "cs_early" not in c.setdefault("gone", set()) and not c["gone"].add("cs_early") else None, None)
+        creator("custom_delete(duplicated name)", lambda k, c: {"op": "custom_delete", "name": "cs_mid"} if c.setdefault("mid", 0) < 2 and not c.__setitem__("mid", c["mid"] + 1) else None, None)
+        creator("custom_delete(producers)", lambda k, c: {"op": "custom_delete", "name": "producers"} if "producers" not in c.setdefault("gone", set()) and not c["gone"].add("producers") else None, None)
+        creator("custom_modify(last)", lambda k, c: {"op": "custom_modify", "name": "cs_late", "bytes": [8, k, k]}, None)
+        creator("custom_modify(empty)", lambda k, c: {"op": "custom_modify", "name": "cs_late", "bytes": []}, None)
+        creator("add_imported_global", lambda k, c: {"op": "add_imported_global", "name": "nig%d" % k}, "G")
+        creator("add_local_func(call base local)", lambda k, c: {"op": "add_local_func", "body": [["call", B(2)], ["i32.const", 900 + k], ["i32.add"]]}, "F")
+        creator("delete_func(unreferenced base import)", lambda k, c: {"op": "delete_func", "id": B(0)}, None)
     if kind in ("N",):
         creator("add_imported_global", lambda k, c: {"op": "add_imported_global", "name": "nig%d" % k}, "G")
         creator("add_global(const)", lambda k, c: {"op": "add_global", "init": [["i32.const", 700 + k]]}, "G")
@@ -633,7 +661,7 @@ def histories(kind, maxlen, observe_modes=(True, False)):
     return out
 
 
-FAMILY = {"C05": "DEL", "C06": "F", "C07": "G", "C08": "M", "C09": "DEL", "C30": "ADD", "C10": "F10", "C11": "F11", "C29": "N", "C12": "B12", "C23": "SE"}
+FAMILY = {"C05": "DEL", "C06": "F", "C07": "G", "C08": "M", "C09": "DEL", "C30": "ADD", "C10": "F10", "C11": "F11", "C29": "N", "C12": "B12", "C23": "SE", "C28": "CS"}
 
 
 def make_cases(pid, tier, seed):
@@ -831,9 +859,16 @@ def judge_side_effects(case, r, rm, spec, impl):
                             bad("probe body instruction %d is %r, injected %r" % (j, ti, ts))
                     except Unsupported as e:
                         bad("probe body instruction %d cannot be resolved in the encoded module: %s" % (j, e))
-    # nothing else may be reported (types and locals are not judged: the API adds them implicitly)
+    # nothing else may be reported.  Types are added implicitly by the function APIs: a type record is in order only
+    # for a signature the parsed module did not already contain ("no record for items that were already in the
+    # parsed module"); local records are not judged.
+    base_sigs = set((tuple(t["params"]), tuple(t["results"])) for t in (r.get("base", {}).get("types") or []) if t)
     for k, x in recs:
-        if k in ("type", "local"):
+        if k == "type":
+            if "params" in x and (tuple(x["params"]), tuple(x["results"])) in base_sigs:
+                viol.append(("report-extra", "a type record (tag %s) reports the function type %s -> %s, which the parsed module already contained" % (x["tag"], x["params"], x["results"]), {"record": x}))
+            continue
+        if k == "local":
             continue
         if k == "probe" and not x["tag"]:
             # a function-level / special-mode probe is reported once with its tag AND once more, untagged, in its
